@@ -1,3 +1,7 @@
 module verif.local/kit
 
 go 1.23
+
+require github.com/algorand/go-deadlock v0.2.5
+
+require github.com/petermattis/goid v0.0.0-20250813065127-a731cc31b4fe // indirect
